@@ -7,7 +7,7 @@
 (* removes from a program what the parser does not keep (redundant         *)
 (* parentheses, the spelling of "!=", regular expressions as trees).       *)
 (*   RoundTrip: for a program q rendered in any style and parsed,          *)
-(*   ToQuery(tree) = NormQ(q).                                             *)
+(*   ToQuery(tree) = NormQ(q), chains of && / || compared as right-nested. *)
 (* Trace_ParseBack checks it on (q, tree) pairs where the tree is the real *)
 (* parser's (already validated against Parser.tla).                        *)
 (***************************************************************************)
@@ -68,9 +68,29 @@ NormE(e) ==
     [] e.k = "cmp" -> ECmp(NormOp(e.op), NormO(e.l), NormO(e.r))
     [] OTHER -> e
 
+\* && and || are associative, and the parser groups a chain of one of them to the right whatever grouping the program had
+\* (A || B || C is written without parentheses for both groupings): chains are compared as right-nested
+RECURSIVE Operands(_, _), AssocQ(_), AssocE(_), AssocO(_), Chain(_, _)
+Operands(e, k) == IF e.k = k THEN Operands(e.l, k) \o Operands(e.r, k) ELSE <<e>>
+Chain(xs, k) == IF Len(xs) = 1 THEN xs[1] ELSE [k |-> k, l |-> xs[1], r |-> Chain(Tail(xs), k)]
+AssocSel(s) == IF s.k = "filter" THEN SFilter(AssocE(s.e)) ELSE s
+AssocQ(q) == Q(q.root, [i \in 1..Len(q.segs) |-> Seg(q.segs[i].desc, [j \in 1..Len(q.segs[i].sels) |-> AssocSel(q.segs[i].sels[j])])])
+AssocO(x) == CASE x.k = "q" -> OQ(AssocQ(x.q))
+               [] x.k = "fn" -> OFn(x.f, [j \in 1..Len(x.args) |-> AssocO(x.args[j])])
+               [] x.k = "expr" -> [k |-> "expr", e |-> AssocE(x.e)]
+               [] OTHER -> x
+AssocE(e) == CASE e.k \in {"or", "and"} -> LET xs == Operands(e, e.k) IN Chain([j \in 1..Len(xs) |-> AssocE(xs[j])], e.k)
+               [] e.k = "not" -> ENot(AssocE(e.e))
+               [] e.k = "test" -> ETest(AssocQ(e.q))
+               [] e.k = "ftest" -> EFTest(e.f, [j \in 1..Len(e.args) |-> AssocO(e.args[j])])
+               [] e.k = "cmp" -> ECmp(e.op, AssocO(e.l), AssocO(e.r))
+               [] e.k = "otest" -> [k |-> "otest", o |-> AssocO(e.o)]
+               [] OTHER -> e
+Same(parsed, program) == AssocQ(parsed) = AssocQ(NormQ(program))
+
 \* a parser tree (first operand and [op, operand] pairs) against a program and its compound rest
 RoundTrip(tree, first, rest) ==
-  /\ ToQuery(tree.first) = NormQ(first)
+  /\ Same(ToQuery(tree.first), first)
   /\ Len(tree.rest) = Len(rest)
-  /\ \A j \in 1..Len(rest) : tree.rest[j].op = rest[j].op /\ ToQuery(tree.rest[j].q) = NormQ(rest[j].q)
+  /\ \A j \in 1..Len(rest) : tree.rest[j].op = rest[j].op /\ Same(ToQuery(tree.rest[j].q), rest[j].q)
 =============================================================================
